@@ -130,7 +130,7 @@ Qed.
 
 (* name-level statement with the concrete fuel bound (termination on pointer loops) *)
 Theorem unpack_name_terminates msg off fuel :
-  264 < fuel -> safe (unpack_name_go fuel msg off 0 off []).
+  381 < fuel -> safe (unpack_name_go fuel msg off 0 off []).
 Proof.
   intros Hf. destruct (Nat.le_gt_cases off (length msg)) as [H|H].
   - eapply good_safe. apply unpack_name_go_good; cbn [length]; lia.
